@@ -139,6 +139,11 @@ func cmdCheck(args []string) {
 		fmt.Fprintln(os.Stderr, "govc: cannot load repository:", err)
 		os.Exit(2)
 	}
+	if len(cfg.Sweep) > 0 {
+		v.sweepScope = func(key string) bool {
+			return matchAny(key, cfg.Sweep) && !matchAny(key, cfg.SweepSkip) && v.db.Funcs[key] == nil
+		}
+	}
 	var violations []string
 	var kfHits []string
 	kfs := loadKnownFindings(filepath.Join(verifDir(), "known_findings.txt"))
